@@ -57,7 +57,18 @@ def special_cases():
             (bytes([108, 0, 0, 0, 1]) + i1 + bytes([97, 2]), bytes([108, 0, 0, 0, 1]) + i1 + bytes([97, 3])),
             (bytes([104, 1]) + i1, bytes([104, 2]) + i1 + i1), (a(b"a"), a(b"ab")), (bytes([97, 255]), bytes([98, 0, 0, 1, 0])),
             (bytes([110, 9, 0]) + bytes(8) + b"\x01", bytes([110, 9, 0, 1]) + bytes(7) + b"\x01"),
-            (bytes([113]) + a(b"m") + a(b"f") + bytes([97, 1]), bytes([113]) + a(b"m") + a(b"f") + bytes([97, 2]))]
+            (bytes([113]) + a(b"m") + a(b"f") + bytes([97, 1]), bytes([113]) + a(b"m") + a(b"f") + bytes([97, 2])),
+            # keys a comparison may or may not tell apart: the two zeros, inside a tuple too; the same number as float and big integer
+            (bytes([70]) + struct.pack(">d", 0.0), bytes([70]) + struct.pack(">d", -0.0)),
+            (bytes([104, 1, 70]) + struct.pack(">d", 0.0), bytes([104, 1, 70]) + struct.pack(">d", -0.0)),
+            (bytes([70]) + struct.pack(">d", 2.0**63), bytes([110, 8, 0]) + bytes(7) + b"\x80"),
+            (bytes([97, 0]), bytes([70]) + struct.pack(">d", -0.0))]
+    # legacy Latin-1 atom tags whose bytes happen to be well-formed UTF-8, are plain ASCII, or are neither
+    for nm in (b"\xc3\xa9", b"caf\xc3\xa9", b"abc", b"\xe9", b"\xc3", b"\xe2\x82\xac", b""):
+        out.append(bytes([131, 100]) + struct.pack(">H", len(nm)) + nm)
+        out.append(bytes([131, 115, len(nm)]) + nm)
+        out.append(bytes([131, 104, 2, 115, len(nm)]) + nm + bytes([119, len(nm)]) + nm)
+        out.append(bytes([131, 103, 115, len(nm)]) + nm + struct.pack(">IIB", 1, 2, 3))
     for k1, k2 in keys:
         out.append(bytes([131, 116, 0, 0, 0, 2]) + k1 + i1 + k2 + bytes([97, 2]))
         out.append(bytes([131, 116, 0, 0, 0, 2]) + k2 + i1 + k1 + bytes([97, 2]))
